@@ -330,7 +330,7 @@ class C02(Check):
                     nsh = 1 if kmain == 1 else 8
                     for sh in range(nsh):
                         yield {"mode": "dfs", "readers": [api], "writers": [w], "topology": topo, "backend": be,
-                               "k": kmain, "shard": sh, "nshards": nsh}
+                               "k": kmain, "shard": sh, "nshards": nsh, "max_runs": 100000 if tier == "quick" else 200}
         if tier == "quick":
             extra = [("scan", "append", "shared", "local"), ("scan_batches", "delete", "separate", "local"),
                      ("iter_records", "failed_commit", "separate", "local"), ("scan", "multi", "separate", "s3")]
@@ -350,7 +350,7 @@ class C02(Check):
             for api in (["scan", "row_count"] if tier == "quick" else READ_APIS):
                 for wr in (["append", "failed_commit"] if tier == "quick" else ["append", "multi", "delete", "failed_commit"]):
                     yield {"mode": "dfs", "readers": [api], "writers": [wr], "topology": "separate", "backend": "local",
-                           "k": 1 if tier == "quick" else 2, "shard": 0, "nshards": 1, "nreads": 2, "reader_fault": rf}
+                           "k": 1 if tier == "quick" else 2, "shard": 0, "nshards": 1, "nreads": 2, "reader_fault": rf, "max_runs": 100000 if tier == "quick" else 1500}
         # readers racing the FIRST commit of an empty table
         for api in READ_APIS:
             for w in ("append", "multi"):
@@ -391,8 +391,10 @@ class C02(Check):
                         return strat, ex.run(strat)
 
                     st = explore_bounded(run_once, case["k"], (case["shard"], case["nshards"]),
+                                         max_runs=case.get("max_runs", 100000),
                                          on_result=lambda dev, r: self._record(case, dev, r, res))
                     res.count("dfs_infeasible", st["infeasible"])
+                    res.count("dfs_truncated", st["truncated"])
                 else:
                     for j in range(case["runs"]):
                         s = f"{case['seed']}:{j}"
